@@ -30,10 +30,10 @@ type Program struct {
 	TestPkg  *packages.Package
 	AllFuncs map[*ssa.Function]bool
 	WithTest bool
+	Renames  []Rename // identities assumed for renamed declarations
 }
 
-// Load loads ./... of dir. With tests, test variants are loaded too.
-func Load(dir string, tests bool) (*Program, error) {
+func loadPkgs(dir string, tests bool, overlay map[string][]byte) ([]*packages.Package, error) {
 	env := os.Environ()
 	clean := env[:0:0]
 	for _, kv := range env {
@@ -49,6 +49,7 @@ func Load(dir string, tests bool) (*Program, error) {
 		Env:        clean,
 		Tests:      tests,
 		BuildFlags: []string{"-tags=verif"},
+		Overlay:    overlay,
 	}
 	pkgs, err := packages.Load(cfg, "./...")
 	if err != nil {
@@ -67,9 +68,38 @@ func Load(dir string, tests bool) (*Program, error) {
 		sort.Strings(errs)
 		return nil, fmt.Errorf("load: %d type/parse errors, first: %s", len(errs), errs[0])
 	}
+	return pkgs, nil
+}
+
+// Load loads ./... of dir. With tests, test variants are loaded too. Plain
+// renames of known functions and fields are undone through an overlay first
+// (see known.go); Program.Renames lists the identities assumed.
+func Load(dir string, tests bool) (*Program, error) {
+	var renames []Rename
+	var overlay map[string][]byte
+	if needRenameScan(dir) {
+		pre, err := loadPkgs(dir, tests, nil)
+		if err != nil {
+			return nil, err
+		}
+		byDecl, rs := detectRenames(pre)
+		if len(byDecl) != 0 {
+			if overlay, err = renameOverlay(pre, byDecl); err != nil {
+				return nil, fmt.Errorf("load: rename overlay: %w", err)
+			}
+			renames = rs
+		}
+	}
+	pkgs, err := loadPkgs(dir, tests, overlay)
+	if err != nil {
+		if overlay != nil {
+			return nil, fmt.Errorf("%w (with renames undone: %v)", err, renames)
+		}
+		return nil, err
+	}
 	prog, ssaPkgs := ssautil.AllPackages(pkgs, ssa.InstantiateGenerics)
 	prog.Build()
-	p := &Program{Dir: dir, Fset: pkgs[0].Fset, Pkgs: pkgs, SSA: prog, WithTest: tests}
+	p := &Program{Dir: dir, Fset: pkgs[0].Fset, Pkgs: pkgs, SSA: prog, WithTest: tests, Renames: renames}
 	for i, pk := range pkgs {
 		switch {
 		case pk.PkgPath == RootPath && !strings.Contains(pk.ID, "["):
